@@ -327,4 +327,24 @@ pub proof fn lemma_filter_implies<T>(s: Seq<T>, r: Seq<T>, q: spec_fn(T) -> bool
         lemma_filter_member(s, p1, k);
     }
 }
+/// `slice::sort_by` (R5: `.sort_by(` -> `.sort_by_(`): the result is a permutation of the input
+/// (the order itself is left uninterpreted)
+pub trait SortExt<T> {
+    spec fn sv_(&self) -> Seq<T>;
+    fn sort_by_<F: Fn(&T, &T) -> core::cmp::Ordering>(&mut self, f: F)
+        ensures final(self).sv_().to_multiset() == old(self).sv_().to_multiset(), final(self).sv_().len() == old(self).sv_().len(),
+            final(self).sv_() == sorted_by_denom_spec(old(self).sv_());
+}
+pub uninterp spec fn sorted_by_denom_spec<T>(s: Seq<T>) -> Seq<T>;
+impl<T> SortExt<T> for [T] {
+    open spec fn sv_(&self) -> Seq<T> { self@ }
+    #[verifier::external_body]
+    fn sort_by_<F: Fn(&T, &T) -> core::cmp::Ordering>(&mut self, f: F) { unimplemented!() }
+}
+impl<T> SortExt<T> for Vec<T> {
+    open spec fn sv_(&self) -> Seq<T> { self@ }
+    #[verifier::external_body]
+    fn sort_by_<F: Fn(&T, &T) -> core::cmp::Ordering>(&mut self, f: F) { unimplemented!() }
+}
+
 } // verus!
